@@ -290,4 +290,29 @@ theorem completedCs_depth (e : Env) : ∀ (cs : Comps) (fields : List FieldPlan)
     · exact completedCs_depth e rest fields path B h id hid
 end
 
+/-- every completed response path is bounded by the selection alone -/
+theorem completed_depth_le (e : Env) (root : String) (ss : SelectionSet) (world : World) :
+    ∀ id ∈ completedW e (rootPlan e root ss).fields [] world,
+      id.length ≤ 1 + depthSet ss + (maxBodyDepth e.frags + 1) * e.frags.length := by
+  have hgood : GoodChain e.frags [] := ⟨List.nodup_nil, fun _ h => by simp at h⟩
+  have hnew := collectFuel_depth (e.ctx root) (fuelFor (e.ctx root)) [] ss {} hgood
+  have hsub : SubsBelow e.frags (depthSet ss + slack e.frags []) (rootPlan e root ss).fields := by
+    intro fp hfp s hs
+    rcases hnew fp hfp s hs with ⟨fp0, h0, _⟩ | h
+    · simp at h0
+    · exact h
+  intro id hid
+  have := completedW_depth e world _ [] _ hsub id hid
+  simp only [slack, List.length_nil, Nat.sub_zero] at this
+  omega
+
+/-- … and so is the position of every lazily planned sub-selection -/
+theorem log_depth_le (e : Env) (root : String) (ss : SelectionSet) (world : World) :
+    ∀ en ∈ (execW e (rootPlan e root ss).fields [] world {}).log,
+      en.id.length ≤ 1 + depthSet ss + (maxBodyDepth e.frags + 1) * e.frags.length := by
+  intro en hen
+  rcases execW_mem e world _ _ _ en hen with h | h
+  · simp at h
+  · exact completed_depth_le e root ss world en.id h
+
 end GqlModel.Cost
